@@ -64,7 +64,7 @@ var tmpls = []Tmpl{
 	{ID: "func_struct_field_ref", Self: "funcp", Target: "struct", Units: []string{"func $S(t *$T) *uint64 {\n\treturn &t.v\n}"}, Names: []string{"$S"}},
 	{ID: "func_method_val", Self: "func", Target: "structm", Units: []string{"func $S() uint64 {\n\tt := $T{v: 1}\n\treturn t.get()\n}"}, Names: []string{"$S"}},
 	{ID: "func_method_ptr", Self: "funcp", Target: "structm", Units: []string{"func $S(t *$T) {\n\tt.set(3)\n}"}, Names: []string{"$S"}},
-	{ID: "func_method_value", Self: "funcp", Target: "structm", Units: []string{"func $S(t $T) uint64 {\n\tf := t.get\n\treturn f()\n}"}, Names: []string{"$S"}},
+	{ID: "func_method_value", Self: "funcp", Target: "structm", Units: []string{"func $S(t *$T) {\n\tf := t.set\n\tf(3)\n}"}, Names: []string{"$S"}},
 	{ID: "func_reads_const", Self: "func", Target: "const", Units: []string{"func $S() uint64 {\n\treturn $T + 1\n}"}, Names: []string{"$S"}},
 	{ID: "func_reads_global", Self: "func", Target: "global", Units: []string{"func $S() uint64 {\n\treturn $T\n}"}, Names: []string{"$S"}},
 	{ID: "func_named_sig", Self: "funcp", Target: "named", Units: []string{"func $S(n $T) $T {\n\treturn n\n}"}, Names: []string{"$S"}},
@@ -85,6 +85,14 @@ var tmpls = []Tmpl{
 	{ID: "method_calls_func", Self: "multi", Target: "func", Units: []string{"type Own$S struct {\n\tv uint64\n}", "func (o Own$S) $S() uint64 {\n\treturn $T() + o.v\n}"}, Names: []string{"Own$S", "Own$S__$S"}},
 	{ID: "method_uses_struct", Self: "multi", Target: "struct", Units: []string{"type Own$S struct {\n\tv uint64\n}", "func (o *Own$S) $S() uint64 {\n\tt := $T{v: o.v}\n\treturn t.v\n}"}, Names: []string{"Own$S", "Own$S__$S"}},
 	{ID: "func_recursive_and_calls", Self: "funcp", Target: "func", Units: []string{"func $S(n uint64) uint64 {\n\tif n == 0 {\n\t\treturn $T()\n\t}\n\treturn $S(n-1) + 1\n}"}, Names: []string{"$S"}},
+	{ID: "func_recursive_then_calls", Self: "funcp", Target: "func", Units: []string{"func $S(n uint64) uint64 {\n\tif n == 0 {\n\t\treturn 0\n\t}\n\treturn $S(n-1) + $T()\n}"}, Names: []string{"$S"}},
+	{ID: "func_recursive_then_const", Self: "funcp", Target: "const", Units: []string{"func $S(n uint64) uint64 {\n\tif n == 0 {\n\t\treturn 0\n\t}\n\treturn $S(n-1) + $T\n}"}, Names: []string{"$S"}},
+	{ID: "func_recursive_then_struct", Self: "funcp", Target: "struct", Units: []string{"func $S(n uint64) uint64 {\n\tif n == 0 {\n\t\treturn 0\n\t}\n\tr := $S(n - 1)\n\tt := $T{v: r}\n\treturn t.v\n}"}, Names: []string{"$S"}},
+	{ID: "func_recursive_in_closure", Self: "funcp", Target: "func", Units: []string{"func $S(n uint64) uint64 {\n\tif n == 0 {\n\t\treturn $T()\n\t}\n\tf := func() uint64 {\n\t\treturn $S(n - 1)\n\t}\n\treturn f() + 1\n}"}, Names: []string{"$S"}},
+	{ID: "func_recursive_in_closure_arg", Self: "multi", Target: "func", Units: []string{"func app$S(f func(uint64) uint64, v uint64) uint64 {\n\treturn f(v)\n}", "func $S(n uint64) uint64 {\n\tif n == 0 {\n\t\treturn $T()\n\t}\n\treturn app$S(func(m uint64) uint64 {\n\t\treturn $S(m)\n\t}, n-1)\n}"}, Names: []string{"app$S", "$S"}},
+	{ID: "func_recursive_in_go", Self: "funcp", Target: "func", Units: []string{"func $S(n uint64) {\n\tif n == 0 {\n\t\t$T()\n\t\treturn\n\t}\n\tgo func() {\n\t\t$S(n - 1)\n\t}()\n}"}, Names: []string{"$S"}},
+	{ID: "method_recursive_in_closure", Self: "multi", Target: "func", Units: []string{"type Own$S struct {\n\tv uint64\n}", "func (o *Own$S) $S(n uint64) uint64 {\n\tif n == 0 {\n\t\treturn $T()\n\t}\n\tf := func() uint64 {\n\t\treturn o.$S(n - 1)\n\t}\n\treturn f() + 1\n}"}, Names: []string{"Own$S", "Own$S__$S"}},
+	{ID: "method_recursive_then_calls", Self: "multi", Target: "const", Units: []string{"type Own$S struct {\n\tv uint64\n}", "func (o *Own$S) $S(n uint64) uint64 {\n\tif n == 0 {\n\t\treturn o.v\n\t}\n\treturn o.$S(n-1) + $T\n}"}, Names: []string{"Own$S", "Own$S__$S"}},
 	{ID: "method_recursive", Self: "multi", Target: "struct", Units: []string{"type Own$S struct {\n\tv uint64\n}", "func (o *Own$S) $S(n uint64) uint64 {\n\tif n == 0 {\n\t\tt := $T{v: 1}\n\t\treturn t.v\n\t}\n\treturn o.$S(n-1) + 1\n}"}, Names: []string{"Own$S", "Own$S__$S"}},
 }
 
@@ -210,6 +218,28 @@ func mkPkgs(tier string) []Pkg {
 		emit("special_shared_interface_conversion", []string{"type I interface {\n\tm() uint64\n}", "type St struct {\n\tv uint64\n}", "func (s St) m() uint64 {\n\treturn s.v\n}", "func use(i I) uint64 {\n\treturn i.m()\n}", "func f1() uint64 {\n\treturn use(St{v: 1})\n}", "func f2() uint64 {\n\treturn use(St{v: 2})\n}"}, []string{"I", "St", "St__m", "use", "f1", "f2", "St__to__I"})
 	} else {
 		emit("special_shared_interface_conversion", []string{"type I interface {\n\tm() uint64\n}", "type St struct {\n\tv uint64\n}", "func (s St) m() uint64 {\n\treturn s.v\n}", "func use(i I) uint64 {\n\treturn i.m()\n}\n\nfunc f1() uint64 {\n\treturn use(St{v: 1})\n}\n\nfunc f2() uint64 {\n\treturn use(St{v: 2})\n}"}, []string{"I", "St", "St__m", "use", "f1", "f2", "St__to__I"})
+	}
+	// two users of one target plus a caller of the second user: whatever is remembered while the first
+	// user is translated (a cache, a "seen" set) must not make the second user lose its dependency;
+	// the caller pulls the second user forward, ahead of the target
+	for _, t1 := range tmpls {
+		if len(t1.Units) != 1 || t1.Self != "func" {
+			continue
+		}
+		b := baseOf[t1.Target]
+		if len(b.Units) != 1 {
+			continue
+		}
+		for _, t2 := range tmpls {
+			if len(t2.Units) != 1 || t2.Self != "func" || t2.Target != t1.Target {
+				continue
+			}
+			if tier == "quick" && t2.ID != t1.ID {
+				continue
+			}
+			units := []string{"func Cc() uint64 {\n\treturn Ab() + 1\n}", subst(t1.Units[0], "Aa", "Bb"), subst(t2.Units[0], "Ab", "Bb"), subst(b.Units[0], "Bb", "")}
+			emit("twousers:"+t1.ID+"+"+t2.ID, units, []string{"Cc", "Aa", "Ab", "Bb"})
+		}
 	}
 	// declaration groups: const ( ... ), var ( ... ), type ( ... ) define several names in one
 	// declaration; a user of the first, a middle and the last name, before and after the group
